@@ -47,6 +47,11 @@ PROPERTIES = {
     units=[U('c08_json', 'c08_json.cpp', flavour='asan', libs=['-lpugixml'], quick=dict(cases=20000, shards=8, min_eval=50000), thorough=dict(cases=600000, shards=16, min_eval=1000000)),
            U('c08_xml', 'c08_xml.cpp', flavour='asan', cflags=['-I/usr/include/libxml2'], libs=['-lpugixml', '-lxml2'], quick=dict(cases=20000, shards=8, min_eval=50000), thorough=dict(cases=600000, shards=16, min_eval=1000000)),
            U('c01_kf', 'c01_kf.cpp', flavour='asan', libs=['-lpugixml'], args=['--prop', 'kf12*,kf13*,kf44*'], quick=dict(cases=60, shards=1, min_eval=10), thorough=dict(cases=600, shards=1, min_eval=10))]),
+ 'C20': dict(
+    level='fault_enumeration', exhaustive_claim=False,
+    rule='fault positions of generated scenarios (objects with 10 members / CSV rows of generated sizes; 4 archives; memory and 3 kinds of streams): every truncation length, every index k of "the k-th operator new throws" (once / from then on), every byte at which an input streambuf throws, every byte at which an output streambuf fails or throws (with and without the exception mask), CSV row-width mismatch at every row, ill-formed text under ThrowError; each case in a forked child: terminate, abort, sanitizer report, CPU budget or a leak at exit are failures',
+    assumptions=TRUSTED + ['a call that returns normally although an allocation failed is accepted only when its result equals the fault-free result (the failure was absorbed, e.g. by a nothrow fallback)', 'text formats may accept a strict prefix that is itself a document; MessagePack must reject every strict prefix'],
+    units=[U('c20_faults', 'c20_faults.cpp', flavour='asan', libs=['-lpugixml'], isolate=True, quick=dict(cases=700, shards=12, min_eval=4000, timeout=900), thorough=dict(cases=12000, shards=16, min_eval=100000, timeout=7200))]),
  'C09': dict(
     level='exploration', exhaustive_claim=False,
     rule='generated tables (1..8 columns, 1..12 rows; cells: arbitrary Unicode incl. separators, quotes, CR, LF, CRLF, blanks, U+0000, long cells, numbers, booleans, ISO dates, empty) x 5 separators x memory/stream x 5 encodings x BOM; forward: strict RFC 4180 reference parser recovers header + cells; converse: reference writer with free quoting / LF or CRLF / optional final break / permuted columns loads to the same rows (maps and typed by-name struct); ragged records rejected',
